@@ -505,6 +505,10 @@ func (fi *FuncInfo) visitNode(node ast.Node) ast.Visitor {
 			ast.Walk(fi, comm.X.(*ast.UnaryExpr).X)
 		case *ast.AssignStmt:
 			ast.Walk(fi, comm.Rhs[0].(*ast.UnaryExpr).X)
+			// The operands on the left-hand side are evaluated when the case is selected, as part of the clause.
+			for _, lhs := range comm.Lhs {
+				ast.Walk(fi, lhs)
+			}
 		}
 		for _, s := range n.Body {
 			ast.Walk(fi, s)
